@@ -12,27 +12,39 @@ cd "$ev"
 # demo placement: PLACEMENT notes say "<file> -> <dir>/"; copy every demo go file next to the first changed file's package by default
 pkgs=$(grep '^+++ b/' "$out/patch.diff" | sed 's#^+++ b/##' | xargs -n1 dirname | sort -u)
 echo "packages touched: $pkgs"
-demo_pkg=$(python3 - "$out" <<'PY'
-import json,sys,os,re
-out=sys.argv[1]
-m=json.load(open(os.path.join(out,'meta.json')))
-cmd=m.get('demo_cmd','')
-r=re.search(r'\./([\w/\-\.]+?)(/\.\.\.)?(\s|$)',cmd)
-print(r.group(1) if r else '')
+# placement of demo files: "<file> -> <dir>/" notes in demo/*.txt or meta.json; default = first touched package
+python3 - "$out" "$ev" $pkgs > /tmp/mut/place-$id-$tag.txt <<'PY'
+import json,sys,os,re,glob
+out,ev=sys.argv[1],sys.argv[2]; pkgs=sys.argv[3:]
+notes=""
+for f in glob.glob(os.path.join(out,'demo','*.txt'))+glob.glob(os.path.join(out,'*.txt'))+[os.path.join(out,'meta.json')]:
+    try: notes+=open(f).read()+"\n"
+    except Exception: pass
+for g in sorted(glob.glob(os.path.join(out,'demo','*.go'))):
+    name=os.path.basename(g)
+    m=re.search(re.escape(name)+r'[^\n]*?(?:->|→|into|in|to)\s+`?([\w\-./]+/)', notes)
+    d=None
+    if m:
+        d=m.group(1).strip('`').rstrip('/')
+        d=re.sub(r'^(/tmp/mut/[^/]+/|\./)','',d)
+    if not d or not os.path.isdir(os.path.join(ev,d)):
+        # fall back: package clause matches the last path element of a touched package
+        pk=re.search(r'^package (\w+)',open(g).read(),re.M).group(1).replace('_test','')
+        cands=[p for p in pkgs if os.path.basename(p)==pk] or pkgs
+        d=cands[0]
+    print(g,d)
 PY
-)
-[ -n "$demo_pkg" ] || demo_pkg=$(echo "$pkgs" | head -1)
-echo "demo package: $demo_pkg"
-cp "$out"/demo/*.go "$demo_pkg/" 2>/dev/null
-run=$(ls "$out"/demo/*_test.go 2>/dev/null | head -1 | xargs -r grep -ho 'func Test[A-Za-z0-9_]*' | sed 's/func //' | paste -sd'|')
+cat /tmp/mut/place-$id-$tag.txt | sed "s#$out/##"
+demo_dirs=$(awk '{print "./"$2"/"}' /tmp/mut/place-$id-$tag.txt | sort -u | tr '\n' ' ')
+while read f d; do cp "$f" "$d/"; done < /tmp/mut/place-$id-$tag.txt
+run=$(ls "$out"/demo/*_test.go 2>/dev/null | xargs -r grep -ho 'func Test[A-Za-z0-9_]*' | sed 's/func //' | paste -sd'|')
 echo "--- demo WITHOUT the change (must pass)"
-go test -vet=off -count=1 -run "$run" "./$demo_pkg/" 2>&1 | tail -3
-r0=$?
+go test -vet=off -count=1 -run "$run" $demo_dirs 2>&1 | tail -3
 git apply "$out/patch.diff" || { echo "patch does not apply to HEAD"; exit 3; }
 echo "--- build"; go build ./... 2>&1 | tail -3
 echo "--- demo WITH the change (must fail)"
-go test -vet=off -count=1 -run "$run" "./$demo_pkg/" 2>&1 | tail -4
-rm -f $(ls "$out"/demo/*.go | xargs -n1 basename | sed "s#^#$demo_pkg/#")
+go test -vet=off -count=1 -run "$run" $demo_dirs 2>&1 | tail -5
+while read f d; do rm -f "$d/$(basename $f)"; done < /tmp/mut/place-$id-$tag.txt
 echo "--- existing tests of touched packages WITH the change (must pass)"
 for p in $pkgs; do go test -vet=off -count=1 "./$p/" 2>&1 | tail -2; done
 echo "--- ./check $id --tier $tier against the patched tree"
